@@ -497,8 +497,7 @@ theorem processStart_chain (env : Env) (m : Machine) (r : Round) (hr : 0 ≤ r) 
     have hstart : XMicro env A m [] (Machine.resetState { m with isHeightStarted := true } r) :=
       XMicro.start m _ r (by simpa using hs) hr (by simp [Machine.resetState]) (by simp [Machine.resetState])
         (by simp [Machine.resetState, State.reset, Machine.core])
-    have hw := silent_wal (A := A) env m (.start (Machine.processLoop env (Machine.startRound env { m with isHeightStarted := true } r).1
-        [(Machine.startRound env { m with isHeightStarted := true } r).2] none).1.state.height)
+    have hw := silent_wal (A := A) env m (.start m.state.height)
     have := XChain.cons hw (SC.same rfl) (XChain.cons hstart (Or.inr (Or.inr (by simp [Machine.resetState])))
       (XChain.cons ht.1 (SC.started (by simp [Machine.resetState])) h2))
     simpa using this
